@@ -117,6 +117,19 @@ class TSet(Ty):
         return [z3.ArraySort(es, z3.BoolSort())]
 
 
+class TLSet(Ty):
+    """A Python list / iterable known by its set of elements (order abstracted) plus a flag
+    saying that it holds no duplicates (e.g. the result of sorted(set(..)), of keys(), of listdir())."""
+
+    def __init__(self, elem):
+        self.elem = elem
+        self.name = "ListOfSet(%r)" % elem
+
+    def comps(self):
+        (es,) = self.elem.comps()
+        return [z3.ArraySort(es, z3.BoolSort()), z3.BoolSort()]
+
+
 class TMap(Ty):
     def __init__(self, key, val):
         self.key = key
@@ -265,7 +278,7 @@ def fresh(ty, hint="v"):
 
 
 def default_terms(ty):
-    return [z3.Const("junk!%s" % s, s) if not z3.is_array_sort(s) else z3.Const("junk!%s" % s, s) for s in ty.comps()]
+    return [z3.Const("junk!%s" % s, s) for s in ty.comps()]
 
 
 def mk_none_opt(inner):
@@ -316,6 +329,13 @@ def coerce(v, ty):
                 it = coerce(it, ty.elem)
                 out = Val(ty, [z3.Concat(out.t, z3.Unit(it.t))]) if v.items else out
             return out
+        if isinstance(ty, (TLSet, TSet)):
+            arr = empty_set(ty.elem).t
+            for it in v.items:
+                arr = z3.Store(arr, coerce(it, ty.elem).t, True)
+            if isinstance(ty, TSet):
+                return Val(ty, [arr])
+            return Val(ty, [arr, z3.BoolVal(len(v.items) <= 1)])
         if isinstance(ty, TTuple):
             terms = []
             for it, t in zip(v.items, ty.items):
@@ -333,6 +353,8 @@ def coerce(v, ty):
         return mk_some(coerce(v, ty.inner))
     if isinstance(ty, TRef) and isinstance(v.ty, TRef):
         return Val(ty, v.terms)
+    if isinstance(ty, TLSet) and isinstance(v.ty, TSet):
+        return Val(ty, [v.t, z3.BoolVal(True)])
     if isinstance(ty, TBytes) and isinstance(v.ty, TStr):
         return Val(ty, v.terms)
     if isinstance(ty, TStr) and isinstance(v.ty, TBytes):
@@ -425,6 +447,8 @@ def truth(v):
         return z3.Length(v.t) > 0
     if isinstance(ty, TSet):
         return v.t != empty_set(ty.elem).t
+    if isinstance(ty, TLSet):
+        return v.terms[0] != empty_set(ty.elem).t
     if isinstance(ty, TMap):
         return v.terms[0] != empty_set(ty.key).t
     if isinstance(ty, TOpt):
